@@ -15,6 +15,7 @@ callback exactly once — C10), `serverProcess.result()` after `abort()` and the
 -/
 import ConfModel.Lemmas.ServerRunner
 import ConfModel.Lemmas.ServerWire
+import ConfModel.Lemmas.ServerPrint
 import ConfModel.Props.C10
 namespace ConfModel.Props.C11
 open ConfModel.ServerRunner ConfModel.ServerRunner.Spec
@@ -310,6 +311,75 @@ theorem client_garbage_setup_errors (s : Script) (n valid : Nat) (msgs : List (L
       simp [verdict] at this
       subst this; rfl
     · exact this
+
+/-! ### feedback printed by the reference server reaches the named case
+
+The reference server prints its per-case feedback with `safePrinter.PrefixPrintf(name, format, args…)`
+(`prefixPrintf`: the name is an argument of `"%s: "`, never part of a format).  Whatever characters
+the name consists of — `%`, `%s`, `%d%%`, non-ASCII — the printed line is `name: message`, the
+runner's line reader cuts the stream back into these lines and attributes each to its case. -/
+
+/-- **printed_line_recorded.**  One feedback line, printed and read back: recorded for the named
+case with the formatted message; for every name of the batch that can begin a line (`nameOK`) and
+has no `": "` inside, and every message that survives trimming (`solid`). -/
+theorem printed_line_recorded (names : List (List Char)) (nm fmt : List Char) (args : List (List Char))
+    (hm : nm ∈ names) (hsep : noSep nm = true) (hnm : nameOK nm) (hmsg : solid (sprintf fmt args)) :
+    lineAct names (prefixPrintf nm fmt args) = .record nm (sprintf fmt args) := by
+  rw [prefixPrintf_solid nm fmt args hmsg]
+  exact feedback_recorded names nm (sprintf fmt args) hm hsep _ (trim_line nm _ hnm hmsg)
+
+/-- **printed_feedback_attributed.**  Any number of feedback lines printed one after the other on
+the reference server's stderr: the runner records exactly one side-band entry per line, for the
+named case, with the message as formatted — and forwards none of them as noise. -/
+theorem printed_feedback_attributed (names : List (List Char)) (hn : ∀ nm ∈ names, noSep nm = true)
+    (entries : List (List Char × List Char × List (List Char)))
+    (h : ∀ e ∈ entries, e.1 ∈ names ∧ nameOK e.1 ∧ solid (sprintf e.2.1 e.2.2)) :
+    processLines names (splitLines (entries.flatMap fun e => prefixPrintf e.1 e.2.1 e.2.2) []) =
+      ([], entries.map fun e => (e.1, sprintf e.2.1 e.2.2)) := by
+  -- every printed line is `text ++ "\n"` with no newline inside `text`
+  have hflat : ∀ es : List (List Char × List Char × List (List Char)),
+      (∀ e ∈ es, solid (sprintf e.2.1 e.2.2)) →
+      (es.flatMap fun e => prefixPrintf e.1 e.2.1 e.2.2) =
+        (es.map fun e => e.1 ++ ':' :: ' ' :: sprintf e.2.1 e.2.2).flatMap (fun t => t ++ ['\n']) := by
+    intro es
+    induction es with
+    | nil => intro _; rfl
+    | cons e es ih =>
+      intro hs
+      rw [List.flatMap_cons, List.map_cons, List.flatMap_cons, ih (fun x hx => hs x (by simp [hx])),
+        prefixPrintf_solid e.1 e.2.1 e.2.2 (hs e (by simp))]
+  have hnl : ∀ t ∈ (entries.map fun e => e.1 ++ ':' :: ' ' :: sprintf e.2.1 e.2.2), '\n' ∉ t := by
+    intro t ht
+    obtain ⟨e, he, rfl⟩ := List.mem_map.mp ht
+    obtain ⟨_, hnm, hmsg⟩ := h e he
+    intro hh
+    simp only [List.mem_append, List.mem_cons] at hh
+    rcases hh with hh | hh | hh | hh
+    · exact hnm.2 hh
+    · cases hh
+    · cases hh
+    · exact hmsg.2 hh
+  rw [hflat entries (fun e he => (h e he).2.2), splitLines_lines _ hnl, List.map_map]
+  clear hflat hnl
+  induction entries with
+  | nil => rfl
+  | cons e es ih =>
+    obtain ⟨hmem, hnm, hmsg⟩ := h e (by simp)
+    have ih' := ih (fun x hx => h x (by simp [hx]))
+    have hl := printed_line_recorded names e.1 e.2.1 e.2.2 hmem (hn _ hmem) hnm hmsg
+    rw [prefixPrintf_solid e.1 e.2.1 e.2.2 hmsg] at hl
+    rw [List.map_cons, List.map_cons, processLines, ih']
+    simp only [Function.comp]
+    rw [hl]
+
+/-- hypotheses of `printed_feedback_attributed`: a name made of per-cent signs and verbs, a message
+with an argument and an escaped per-cent sign -/
+example : nameOK "100% %s %d%%/unary".toList ∧ noSep "100% %s %d%%/unary".toList = true ∧
+    solid (sprintf "codec %s is 100%% wrong".toList ["json".toList]) ∧
+    prefixPrintf "100% %s %d%%/unary".toList "codec %s is 100%% wrong".toList ["json".toList]
+      = "100% %s %d%%/unary: codec json is 100% wrong\n".toList := by
+  refine ⟨⟨⟨'1', "00% %s %d%%/unary".toList, rfl, by decide⟩, by decide⟩, by decide,
+    ⟨⟨"codec json is 100% wron".toList, 'g', by decide, by decide⟩, by decide⟩, by decide⟩
 
 /-! ### in-process servers (`runInProcess` / `localProcess`) and the real client runner -/
 
